@@ -1,3 +1,4 @@
+import Rp2.Props.Tables.Formulas
 import Rp2.Props.Tables.Countries
 import Rp2.Proofs.PropsA
 /-! # C05 — long-term vs short-term classification follows the holding period -/
@@ -16,4 +17,11 @@ theorem generic_configured : Tables.periodOf "rp2_generic" = some 123 := Tables.
 theorem generic_takes_configured_value : Gen.genericPeriodProbe =
     [("0", "0"), ("1", "1"), ("365", "365"), ("366", "366"), ("1000000000", "1000000000"), ("-1", "rejected"), ("-365", "rejected"),
      ("abc", "rejected"), ("1.5", "rejected"), ("", "rejected"), (" 12 ", "12")] := Tables.generic_period_is_the_configured_value
+
+/-- translator tie: the body of `GainLoss.is_long_term_capital_gains`, translated from the source on every run, is the model's `isLong`
+    (`none` = the internal-error raise for a lot-less disposal) -/
+theorem source_long_term_test_is_the_models (period : Int) (f : Fraction) :
+    Gen.F.GainLoss_is_long_term_capital_gains period f = if Tables.lotlessDisposal f then none else some (f.isLong period) :=
+  Tables.gainloss_long period f
+
 end Rp2.C05
